@@ -26,7 +26,7 @@ use props::ccl::analysis::graph::{self, Node};
 use props::ccl::analysis::interprocedural_fixpoint_generic::NodeValue;
 use props::ccl::analysis::vsa_results::VsaResult;
 use props::ccl::intermediate_representation::*;
-use props::ccl::AnalysisResults;
+use props::ccl::pipeline::AnalysisResults;
 use props::ir_interp::{Abort, Event, Machine};
 use props::irb::*;
 use serde::{Deserialize, Serialize};
@@ -69,15 +69,83 @@ fn memory_config() -> serde_json::Value {
     v["Memory"].clone()
 }
 
+// The tool runs `pointer_inference::run` = LogThread::spawn + PointerInference::new + compute +
+// fill_vsa_result_maps + LogThread::collect. Spawning and joining an OS thread per program costs
+// more than the analysis itself, so every worker keeps ONE real `LogThread` alive whose collector
+// forwards the messages; `PointerInference::new` + `compute` are called exactly as `run` calls them
+// (the VSA result maps are not read by this oracle).
+struct WorkerLog {
+    thread: props::ccl::utils::log::LogThread,
+    buf: std::sync::Arc<std::sync::Mutex<Vec<props::ccl::utils::log::LogThreadMsg>>>,
+    ack: std::sync::mpsc::Receiver<()>,
+}
+const SENTINEL: &str = "c13-harness-sentinel";
+impl WorkerLog {
+    fn new() -> WorkerLog {
+        use props::ccl::utils::log::{LogThread, LogThreadMsg};
+        let buf = std::sync::Arc::new(std::sync::Mutex::new(Vec::new()));
+        let (ack_tx, ack) = std::sync::mpsc::channel();
+        let b2 = buf.clone();
+        let thread = LogThread::spawn(move |rx| {
+            while let Ok(msg) = rx.recv() {
+                match msg {
+                    LogThreadMsg::Terminate => break,
+                    LogThreadMsg::Log(m) if m.text == SENTINEL => {
+                        let _ = ack_tx.send(());
+                    }
+                    other => b2.lock().unwrap().push(other),
+                }
+            }
+            (Vec::new(), Vec::new())
+        });
+        WorkerLog { thread, buf, ack }
+    }
+    /// Everything sent so far (same sender => FIFO, so the sentinel arrives last).
+    fn drain(&self) -> Vec<props::ccl::utils::log::LogThreadMsg> {
+        use props::ccl::utils::log::{LogMessage, LogThreadMsg};
+        if self.thread.get_msg_sender().send(LogThreadMsg::Log(LogMessage::new_info(SENTINEL))).is_err() {
+            mcx::machinery("log thread of the worker is gone");
+        }
+        if self.ack.recv().is_err() {
+            mcx::machinery("log thread of the worker died");
+        }
+        std::mem::take(&mut *self.buf.lock().unwrap())
+    }
+}
+thread_local! {
+    static WORKER_LOG: WorkerLog = WorkerLog::new();
+}
+
 /// Run the real pipeline on a normalized project and copy out what the oracle looks at.
 fn analyse(project: &Project, fn_tid: &Tid, check_vars: &[Variable], config: &serde_json::Value) -> Analysis {
+    use props::ccl::analysis::pointer_inference::PointerInference;
+    use props::ccl::utils::log::LogThreadMsg;
     let cfg = graph::get_program_cfg(&project.program);
     let binary: Vec<u8> = Vec::new();
     let ar = AnalysisResults::new(&binary, &cfg, project);
     let (sigs, _logs) = ar.compute_function_signatures();
     let ar = ar.with_function_signatures(Some(&sigs));
-    let pi = ar.compute_pointer_inference(config, false);
-    let stabilised = !pi.collected_logs.0.iter().any(|l| l.text.contains("Fixpoint did not stabilize"));
+    let (pi, msgs) = WORKER_LOG.with(|wl| {
+        let _ = wl.drain(); // leftovers of a previous program that panicked
+        let mut pi = PointerInference::new(&ar, serde_json::from_value(config.clone()).unwrap(), wl.thread.get_msg_sender(), false);
+        pi.compute(false);
+        (pi, wl.drain())
+    });
+    let mut cwe_warnings = BTreeSet::new();
+    let mut stabilised = true;
+    for m in &msgs {
+        match m {
+            LogThreadMsg::Log(l) => {
+                if l.text.contains("Fixpoint did not stabilize") {
+                    stabilised = false;
+                }
+            }
+            LogThreadMsg::Cwe(w) => {
+                cwe_warnings.insert(w.tids.clone());
+            }
+            LogThreadMsg::Terminate => (),
+        }
+    }
     let params = sigs.get(fn_tid).map(|s| s.parameters.iter().map(|(l, a)| format!("{l} {a:?}")).collect()).unwrap_or_default();
     let mut blocks = BTreeMap::new();
     let g = pi.get_graph();
@@ -113,7 +181,7 @@ fn analyse(project: &Project, fn_tid: &Tid, check_vars: &[Variable], config: &se
         }
         blocks.insert(blk.tid.clone(), view);
     }
-    Analysis { stabilised, blocks, params, cwe_warnings: pi.collected_logs.1.len() }
+    Analysis { stabilised, blocks, params, cwe_warnings: cwe_warnings.len() }
 }
 
 // ---------------------------------------------------------------- initial states
@@ -507,10 +575,19 @@ fn main() {
         let mut dims = vec![ns; k];
         dims.extend(vec![nc; c]);
         let n = mcx::space::size(&dims);
+        // measurement aid (never used by ./check): C13_MEASURE=k explores k evenly spaced programs per skeleton
+        let measure: Option<u64> = std::env::var("C13_MEASURE").ok().and_then(|s| s.parse().ok());
+        let (n_run, stride) = match measure {
+            Some(k) if k < n => (k, n / k),
+            _ => (n, 1),
+        };
+        if stride != 1 {
+            ctx.cap_hit("C13_MEASURE set: strided subset only");
+        }
         total += n;
         per_skeleton.push(json!({"skeleton": SKELETON_NAMES[s], "slots": k, "conditions": c, "programs": n}));
-        par_for(n, 16, |i| {
-            let idx = mcx::space::decode(i, &dims);
+        par_for(n_run, 16, |i| {
+            let idx = mcx::space::decode(i * stride, &dims);
             let sl: Vec<Vec<DefForm>> = idx[..k].iter().map(|x| slots[*x as usize].clone()).collect();
             let cs: Vec<CondForm> = idx[k..].iter().map(|x| conds[*x as usize]).collect();
             let p = build_program(s, &sl, &cs);
